@@ -213,6 +213,23 @@ def fp_sites(gb):
     return sites, funcs
 
 
+def expand_unwind(q, gb):
+    """unwind keys may be 'func' (all loops of that function) or 'func.N'."""
+    if not any("." not in k for k in q.unwind):
+        return dict(q.unwind)
+    r = subprocess.run(["goto-instrument", "--show-loops", gb], stdout=subprocess.PIPE, stderr=subprocess.DEVNULL)
+    loops = re.findall(r"^Loop (\S+):", r.stdout.decode(errors="replace"), re.M)
+    out = {}
+    for k, v in q.unwind.items():
+        if "." in k:
+            out[k] = v
+    for lp in loops:
+        fn = lp.rsplit(".", 1)[0]
+        if fn in q.unwind and lp not in out:
+            out[lp] = q.unwind[fn]
+    return out
+
+
 def restrict_fp(q, gb, wd):
     """Apply function-pointer restrictions.  Returns (new_gb, table)."""
     sites, funcs = fp_sites(gb)
@@ -320,10 +337,16 @@ def trace_inputs(trace):
     return [tuple(ins[k]) for k in sorted(order)]
 
 
+PORTFOLIO = [("minisat", []), ("cadical", ["--sat-solver", "cadical"])]
+
+
 def run_cbmc(q, gb, wd, tag, witness, tier_caps, want_trace, prop_name=None):
+    """Run one cbmc query; the main (UNSAT) query runs a small back-end portfolio
+    in parallel and takes the first conclusive answer."""
+    ux = expand_unwind(q, gb)
     timeout = q.timeout or tier_caps["timeout"]
     mem = q.mem_gb or tier_caps["mem_gb"]
-    cmd = ["cbmc", gb, "--function", q.func, "--json-ui"]
+    cmd = ["cbmc", gb, "--function", q.func, "--json-ui", "--verbosity", "8"]
     if witness:
         cmd += ["--slice-formula", "--drop-unused-functions", "--no-malloc-may-fail",
                 "--no-standard-checks", "--stop-on-fail", "--trace"]
@@ -333,7 +356,7 @@ def run_cbmc(q, gb, wd, tag, witness, tier_caps, want_trace, prop_name=None):
             cmd += ["--trace", "--stop-on-fail"]
         if prop_name:
             cmd += ["--property", prop_name]
-    us = ",".join("%s:%d" % (k, v) for k, v in q.unwind.items())
+    us = ",".join("%s:%d" % (k, v) for k, v in ux.items())
     if us:
         cmd += ["--unwindset", us]
     if q.unwind_default:
@@ -344,23 +367,86 @@ def run_cbmc(q, gb, wd, tag, witness, tier_caps, want_trace, prop_name=None):
                                                "--float-overflow-check", "--nan-check",
                                                "--pointer-primitive-check")]
     cmd += flags
-    if q.backend:
-        cmd += q.backend
-    outp = os.path.join(wd, "out_%s.json" % tag)
-    rssf = os.path.join(wd, "rss_%s.txt" % tag)
-    rc, _, err, wall, rss, timed = run_capped(["/usr/bin/time", "-o", rssf, "-f", "%M"] + cmd,
-                                              timeout, mem, cwd=wd, stdout_path=outp)
+    if q.backend is not None:
+        variants = [("fixed", list(q.backend))]
+    elif witness or os.environ.get("VERIF_NO_PORTFOLIO"):
+        variants = [("cadical", ["--sat-solver", "cadical"])] if witness else [PORTFOLIO[0]]
+    else:
+        variants = PORTFOLIO
+    procs = []
+    t0 = time.time()
+
+    def pre():
+        os.setsid()
+        if mem:
+            lim = int(mem * (1 << 30))
+            resource.setrlimit(resource.RLIMIT_AS, (lim, lim))
+    for (bn, bflags) in variants:
+        outp = os.path.join(wd, "out_%s_%s.json" % (tag, bn))
+        rssf = os.path.join(wd, "rss_%s_%s.txt" % (tag, bn))
+        of = open(outp, "wb")
+        p = subprocess.Popen(["/usr/bin/time", "-o", rssf, "-f", "%M"] + cmd + bflags, stdout=of,
+                             stderr=subprocess.PIPE, cwd=wd, preexec_fn=pre)
+        procs.append({"name": bn, "p": p, "out": outp, "rss": rssf, "of": of, "done": False, "flags": bflags})
+
+    def killall():
+        for pr in procs:
+            if pr["p"].poll() is None:
+                try:
+                    os.killpg(pr["p"].pid, signal.SIGKILL)
+                except ProcessLookupError:
+                    pass
+        for pr in procs:
+            try:
+                pr["p"].wait(timeout=5)
+            except Exception:
+                pass
+            pr["of"].close()
+
+    best = None
     try:
-        rss = int(open(rssf).read().split()[-1])
+        while True:
+            allfin = True
+            for pr in procs:
+                if pr["done"]:
+                    continue
+                rc = pr["p"].poll()
+                if rc is None:
+                    allfin = False
+                    continue
+                pr["done"] = True
+                pr["of"].flush()
+                err = pr["p"].stderr.read() if pr["p"].stderr else b""
+                r = interpret(pr, rc, err, cmd + pr["flags"], time.time() - t0, mem)
+                if r["status"] in ("PASSED", "FAILED"):
+                    best = r
+                    break
+                if best is None or best["status"] == "INCONCLUSIVE":
+                    best = r
+            if best is not None and best["status"] in ("PASSED", "FAILED"):
+                break
+            if allfin:
+                break
+            if time.time() - t0 > timeout:
+                best = {"cmd": " ".join(cmd[2:]), "wall_s": round(time.time() - t0, 2), "rss_kb": None,
+                        "timed_out": True, "rc": None, "status": "INCONCLUSIVE",
+                        "why": "timeout %ss (back ends: %s)" % (timeout, ",".join(v[0] for v in variants))}
+                break
+            time.sleep(0.05)
+    finally:
+        killall()
+    best["wall_s"] = round(time.time() - t0, 2)
+    return best
+
+
+def interpret(pr, rc, err, cmd, wall, mem):
+    try:
+        rss = int(open(pr["rss"]).read().split()[-1])
     except Exception:
         rss = None
     r = {"cmd": " ".join(cmd[2:]), "wall_s": round(wall, 2), "rss_kb": rss,
-         "timed_out": timed, "rc": rc}
-    if timed:
-        r["status"] = "INCONCLUSIVE"
-        r["why"] = "timeout %ss" % timeout
-        return r
-    parsed, perr = parse_cbmc_json(outp)
+         "timed_out": False, "rc": rc, "backend": pr["name"]}
+    parsed, perr = parse_cbmc_json(pr["out"])
     if parsed is None:
         r["status"] = "INCONCLUSIVE"
         r["why"] = "%s (rc=%s; likely memory cap %s GB) %s" % (perr, rc, mem, err.decode(errors="replace")[-300:])
@@ -379,7 +465,7 @@ def run_cbmc(q, gb, wd, tag, witness, tier_caps, want_trace, prop_name=None):
             r["why"] = msg
         return r
     if not results and rc not in (0, 10):
-        r["status"] = "INCONCLUSIVE" if rc in (-9, 137, 134, -6) else "ERROR"
+        r["status"] = "INCONCLUSIVE" if rc in (-9, 137, 134, -6, 6, 9) else "ERROR"
         r["why"] = "cbmc rc=%s %s" % (rc, err.decode(errors="replace")[-400:])
         return r
     failed = [x for x in results if x.get("status") == "FAILURE"]
@@ -394,6 +480,17 @@ def run_cbmc(q, gb, wd, tag, witness, tier_caps, want_trace, prop_name=None):
     if nobody and any(x.get("status") == "FAILURE" for x in nobody):
         r["status"] = "ERROR"
         r["why"] = "missing function body: " + "; ".join(sorted({x["description"] for x in nobody}))
+        return r
+    unw = [x for x in failed if "unwinding assertion" in (x.get("description") or "")]
+    if unw:
+        r["status"] = "ERROR"
+        r["why"] = "unwind bound too small (harness incomplete): " + ", ".join(sorted({x.get("property", "?") for x in unw}))
+        return r
+    undecided = [x for x in results if x.get("status") not in ("SUCCESS", "FAILURE")]
+    if undecided and not failed:
+        r["status"] = "INCONCLUSIVE"
+        r["why"] = "%d of %d checks undecided by the solver (status %s; memory cap %s GB)" % (
+            len(undecided), len(results), ",".join(sorted({str(x.get("status")) for x in undecided})), mem)
         return r
     if failed:
         r["status"] = "FAILED"
@@ -585,7 +682,10 @@ def job(prop, q, variant, tier_caps, known_regions):
         return res
     finally:
         res["job_wall_s"] = round(time.time() - t0, 2)
-        shutil.rmtree(wd, ignore_errors=True)
+        if os.environ.get("VERIF_KEEP"):
+            say("  kept " + wd)
+        else:
+            shutil.rmtree(wd, ignore_errors=True)
 
 
 # --------------------------------------------------------------------------
@@ -597,6 +697,20 @@ TIERS = {
 }
 
 
+# function-pointer roles of the buffer vtable (array units)
+BUF_FP = [
+    (r"_vptr\)\.detach\)", ["_mpt_buffer_alloc_detach", "h_buf_detach"]),
+    (r"_vptr\)\.get_flags\)", ["_mpt_buffer_alloc_flags", "h_buf_flags"]),
+    (r"_vptr\)\.unref\)", ["_mpt_buffer_alloc_unref", "h_buf_unref"]),
+    (r"_vptr\)\.addref\)", ["_mpt_buffer_alloc_ref", "h_buf_addref"]),
+    (r"\bfini\b|\.fini\)", ["h_fini"]),
+    (r"\binit\b|\.init\)", ["h_init"]),
+]
+ARRAY_UNITS = ["mptcore/array/%s.c" % f for f in (
+    "buffer_alloc array_append array_insert array_set array_slice array_reserve array_clone "
+    "array_reduce buffer_insert buffer_cut buffer_set").split()] + ["mptcore/misc/refcount.c"]
+
+
 def load_prop(prop):
     p = os.path.join(VERIF, "props", prop + ".py")
     spec = importlib.util.spec_from_file_location("prop_" + prop, p)
@@ -604,6 +718,8 @@ def load_prop(prop):
     mod.Q = Q
     mod.REPO = REPO
     mod.VERIF = VERIF
+    mod.BUF_FP = BUF_FP
+    mod.ARRAY_UNITS = ARRAY_UNITS
     spec.loader.exec_module(mod)
     return mod
 
@@ -757,7 +873,7 @@ def check_property(prop, tier, only=None, keep=False):
             "functions_encoded": funcs,
             "queries": [{k: r.get(k) for k in ("query", "variant", "harness", "status", "why", "checks_total",
                                                  "checks_failed", "symex_s", "solver_s", "wall_s", "rss_kb",
-                                                 "vccs", "cmd", "defs", "failed", "replay_file", "replayed")}
+                                                 "vccs", "backend", "cmd", "defs", "failed", "replay_file", "replayed")}
                         for r in results],
             "bounds": {q.name: {"unwindset": q.unwind, "unwind_default": q.unwind_default, "stated": q.bounds,
                                 "units": [u if isinstance(u, str) else u[0] for u in q.units],
